@@ -437,7 +437,8 @@ ChunkSizingResult<IntegerT> adjustChunkSizing(
     if (range.isAuto()) {
       isStatic = true;
     } else if (!range.isStatic()) {
-      maxThreads = range.size() - wait;
+      // Never more threads than items, but also never more than the caller allowed.
+      maxThreads = std::min<size_type>(maxThreads, range.size() - wait);
     }
   }
 
